@@ -522,16 +522,20 @@ def main():
             return 2
         with open(FALLBACK, "w") as f:
             json.dump({k: list(v) for k, v in inc.items()}, f, indent=1, sort_keys=True)
-    fb = {}
-    if failed:
-        fb = {k: tuple(v) for k, v in json.load(open(FALLBACK)).items()}
+    fb = {k: tuple(v) for k, v in json.load(open(FALLBACK)).items()} if os.path.exists(FALLBACK) else {}
+    forced = []
+    for a in sys.argv[1:]:
+        if a.startswith("--force-fallback="):
+            forced = [g for g in a.split("=", 1)[1].split(",") if g in GROUPS]
     d = dict(inc)
-    for g in failed:
+    for g in set(failed) | set(forced):
         for k in GROUPS[g]:
             d[k] = fb[k]
+    # groups whose regenerated definitions differ from the ones recorded when the model was last validated
+    changed = sorted(g for g, keys in GROUPS.items() if g not in failed and any(tuple(inc.get(k, ())) != tuple(fb.get(k, ())) for k in keys))
     note = "include/ffsm2/machine.hpp (== development/ffsm2/**)"
-    if failed:
-        note += "; groups NOT translated this run (last known-good definitions kept): %s" % sorted(failed)
+    if failed or forced:
+        note += "; groups keeping the last validated definitions this run: %s" % sorted(set(failed) | set(forced))
     text = render(d, note)
     path = os.path.join(OUT, "Consts.lean")
     old = open(path).read() if os.path.exists(path) else None
@@ -542,7 +546,7 @@ def main():
     else:
         print("translate: %s unchanged" % path)
     with open(os.path.join(OUT, "status.json"), "w") as f:
-        json.dump({"failed": failed}, f, indent=1, sort_keys=True)
+        json.dump({"failed": failed, "changed": changed, "forced": sorted(forced)}, f, indent=1, sort_keys=True)
     for g, msg in sorted(failed.items()):
         print("TRANSLATE-FAILED group=%s: %s" % (g, msg))
     return 0
